@@ -9,7 +9,10 @@ RULE = ('cases = (a) seeded angle histories of 1-300 frames in [0,360): '
         'boundary sets [0,180,360], [0,160,360], [0,120,240,360]; buffer '
         'widths 0 .. just below (360-widest basin)/2; angles kept off the '
         'exact gate values; (b) state sequences as 1-D, 2-D and ragged arrays '
-        'with rows without transitions first/middle/last; non-trivial = (a) '
+        'with rows without transitions first/middle/last; (c) the '
+        'whole-trajectory entry points (all_rotamers, RotamerFeaturizer on '
+        '1-4 peptide trajectories, buffers 0-80) against the same machine; '
+        'non-trivial = (a) '
         'history in which the buffered machine disagrees with plain binning '
         'at >=1 frame and the wrap-around basin is entered or left, (b) >=3 '
         'rows of which >=1 has no transition; distinct by content hash')
@@ -25,10 +28,14 @@ BOUNDS = [[0, 180, 360], [0, 160, 360], [0, 120, 240, 360]]
 
 def shards(tier):
     if tier == 'quick':
-        return [dict(kind='rot', n=3200, parts=12, timeout=900),
-                dict(kind='trans', n=3200, parts=4, timeout=900)]
-    return [dict(kind='rot', n=96000, parts=12, timeout=3400),
-            dict(kind='trans', n=96000, parts=4, timeout=3400)]
+        return [dict(kind='rot', n=3200, parts=10, timeout=900),
+                dict(kind='trans', n=3200, parts=4, timeout=900),
+                dict(kind='feat', n=24, parts=2, timeout=900,
+                     env={'OMP_NUM_THREADS': 1})]
+    return [dict(kind='rot', n=96000, parts=10, timeout=3400),
+            dict(kind='trans', n=96000, parts=4, timeout=3400),
+            dict(kind='feat', n=400, parts=2, timeout=3400,
+                 env={'OMP_NUM_THREADS': 1})]
 
 
 def setup(ctx):
@@ -281,8 +288,104 @@ def run_trans(ctx, rng, idx):
         ctx.sample(desc)
 
 
+def run_feat(ctx, rng, idx):
+    """Whole-trajectory entry points: all_rotamers / phi / psi / chi and the
+    RotamerFeaturizer estimator on several trajectories must apply the SAME
+    machine (requested buffer, fresh start per trajectory) as _rotamers."""
+    import os
+    import mdtraj as md
+    from enspara.cards import featurizers
+    import enspara
+    base = os.path.join(os.path.dirname(enspara.__file__), 'test')
+    if not hasattr(ctx, 'pep'):
+        ctx.pep = md.load(os.path.join(base, 'cards_data', 'trj0.xtc'),
+                          top=os.path.join(base, 'cards_data',
+                                           'PROT_only.pdb'))
+    full = ctx.pep
+    b = [0, 5, 15, 40, float(np.round(rng.uniform(0.5, 79.0), 2)) + 0.003][
+        int(rng.integers(0, 5))]
+    ntr = int(rng.integers(1, 5))
+    trajs = []
+    for _ in range(ntr):
+        L = int(rng.integers(1, 40))
+        fr = rng.integers(0, len(full), size=L) if rng.random() < 0.5 else \
+            (int(rng.integers(0, len(full) - L)) + np.arange(L))
+        trajs.append(full[fr])
+    desc = {'buffer': b, 'trajectories': [len(t) for t in trajs],
+            'input': 'generator' if idx % 2 else 'list'}
+    ctx.describe(desc)
+
+    def expected(t):
+        cols = []
+        for dih, hb, shift in (('phi', [0, 180, 360], 0),
+                               ('psi', [0, 160, 360], 100),
+                               ('chi1', [0, 120, 240, 360], 0),
+                               ('chi2', [0, 120, 240, 360], 0),
+                               ('chi3', [0, 120, 240, 360], 0),
+                               ('chi4', [0, 120, 240, 360], 0)):
+            ang, _ = rotamer.dihedral_angles(t, dih)
+            ang = np.array(ang, dtype=float)
+            if shift:
+                ang = ang - shift
+                ang[ang < 0] += 360
+            G = gates(hb, b)
+            for c in range(ang.shape[1]):
+                a = ang[:, c]
+                if np.any(np.isin(np.round(a, 9), np.round(G, 9))):
+                    cols.append(None)       # an exact gate value: ambiguous
+                    continue
+                cols.append(machine([float(x) for x in a], hb, b)[0])
+        return cols
+    try:
+        f = featurizers.RotamerFeaturizer(buffer_width=b)
+        f.fit((t for t in trajs) if idx % 2 else list(trajs))
+        got = f.feature_trajectories_
+    except Exception as e:  # noqa
+        ctx.crash('featurizer.raised', e)
+        return
+    ctx.count('featurizer_fits')
+    if len(got) != ntr:
+        ctx.violation('featurizer.trajectory-count', '%d in, %d out' % (
+            ntr, len(got)))
+        return
+    for i, (t, g) in enumerate(zip(trajs, got)):
+        exp = expected(t)
+        g = np.asarray(g)
+        if g.shape != (len(t), len(exp)):
+            ctx.violation('featurizer.shape', 'trajectory %d: %s vs (%d, %d)'
+                          % (i, g.shape, len(t), len(exp)))
+            return
+        direct = np.asarray(rotamer.all_rotamers(t, buffer_width=b)[0])
+        for c, e in enumerate(exp):
+            if e is None:
+                ctx.count('ambiguous_gate_columns')
+                continue
+            ctx.count('frames_compared', len(e))
+            if not np.array_equal(direct[:, c], e):
+                ctx.violation('all_rotamers.hysteresis-wrong',
+                              'dihedral %d of trajectory %d (buffer %s): '
+                              'all_rotamers differs from the machine' % (
+                                  c, i, b))
+                return
+            if not np.array_equal(g[:, c], e):
+                w = int(np.where(g[:, c] != e)[0][0])
+                ctx.violation(
+                    'featurizer.differs[%s]' % ('first-trajectory' if i == 0
+                                                else 'later-trajectory'),
+                    'RotamerFeaturizer(buffer_width=%s): trajectory %d, '
+                    'dihedral %d, frame %d: got %d, the machine with that '
+                    'buffer says %d' % (b, i, c, w, g[w, c], e[w]))
+                return
+    if ntr >= 2 and b != 15:
+        ctx.nontriv('feat', b, tuple(len(t) for t in trajs), idx)
+    if idx % 12 == 0:
+        ctx.sample(desc)
+
+
 def run_case(ctx, kind, rng, idx):
     if kind == 'rot':
         run_rot(ctx, rng, idx)
+    elif kind == 'feat':
+        run_feat(ctx, rng, idx)
     else:
         run_trans(ctx, rng, idx)
